@@ -81,6 +81,7 @@ func main() {
 	if !*noadd {
 		g.release(*relrounds) // first: its monitor lines are the shortest histories
 		g.pairs(int64(*pairs))
+		g.foreignKey()
 		g.misc()
 	}
 	for k := 0; k < *sessions; k++ {
